@@ -1,4 +1,5 @@
 import Litep2pVerif.Proofs.Manager.LedgerStep
+import Litep2pVerif.Proofs.Manager.Proto
 /-!
 # C05 — Every dial attempt ends in exactly one outcome and never wedges the peer
 
@@ -22,6 +23,16 @@ made the manager call `dial`/`open` on the transport; `g.log` — every event `n
 `outcome g a` — reports in the log that conclude `a` (`ConnectionEstablished` for the connection that
 carries `a`: its own, or the inbound one that superseded it while opening; `DialFailure`/`OpenFailure`
 for its own id); `inflight g a` — 1 iff the environment still owes the event that concludes `a`.
+
+**Protocol level** (`Model/Manager/Proto.lean`, lemmas `Proofs/Manager/Proto.lean`): `PS` wraps `G` with
+the bounded event channel of every installed protocol, the command channel, and the manager step
+that is suspended inside `next()` on a blocking `send()` to a full channel (`todo`, `held`). `PReach`:
+reachable by contract-abiding base inputs (refused while the manager is blocked), protocol dial
+requests through `TransportManagerHandle::dial` / `dial_address`, anything filling a channel, a
+protocol draining its channel, and the two internal steps "the manager takes the next command" and
+"the blocked send is polled again" — in every order, for every number and order of protocols and
+every channel capacity. Ghost: `sent j` / `recv j` (what entered / left channel `j`), `done` (the
+fate of every processed command), `pall ps j` = what protocol `j` was sent or is still being sent.
 -/
 namespace Litep2pVerif.Props.C05
 open Litep2pVerif Litep2pVerif.Manager
@@ -183,11 +194,236 @@ example : dialAddrTransport [.ip6 3, .tcp 7, .p2p 4] = some .tcp ∧
     dialAddrTransport [.ip4 5, .tcp 5, .p2p 1, .p2p 2] = none := by
   decide
 
+/-! ## Dial requests of the protocols -/
+
+theorem poutcome_eq {ps : PS} (h : PInv ps) {j : Nat} (hj : j ∈ ps.order) (a : Attempt) :
+    poutcome ps j a = outcome ps.g a := by
+  unfold poutcome pall
+  rw [h.tied j hj]
+  exact h.rep a
+
+theorem eq_singleton_of_length_le_one {α : Type} {l : List α} {d : α} (hl : l.length ≤ 1) (hd : d ∈ l) : l = [d] := by
+  match l, hl, hd with
+  | [x], _, hd => simp at hd; rw [hd]
+
+/-- **Every accepted dial request of a protocol ends in exactly one outcome, for every protocol.**
+In every reachable state, for every installed protocol `j`:
+
+1. every request that was accepted (`TransportManagerHandle::dial` / `dial_address` returned `Ok` and
+   queued a command; they are numbered `0 .. nextReq-1`) is *either* still in the command channel
+   (the manager has not got to it) *or* was processed, exactly once;
+2. a processed request `d` either
+   * `started c`: made the manager start the attempt `a` with connection id `c` for the requested
+     peer — and for that attempt protocol `j` was/is being sent exactly one report
+     (`ConnectionEstablished{peer}` of the connection carrying it or `DialFailure{peer, addresses}`)
+     once the transport owes nothing for it, none before: `poutcome ps j a + inflight ps.g a = 1`;
+   * `failed` (`DialPeer` only): protocol `j` was/is being sent exactly one failure report for it,
+     `DialFailure{peer, []}`;
+   * `joined` / `connected` / `silent`: no report of its own (see `protocol_dial_joins` for what a
+     joined request is concluded by; `silent` is the `DialAddress` defect, see the witness below);
+3. the same ledger holds for every attempt the manager ever started, whoever asked for it — never
+   two reports, never both a connection and a failure;
+4. `pall` is real delivery: when the manager is not blocked, what protocol `j` was sent is exactly
+   what it took out of its channel followed by what sits in the channel — after a drain, everything. -/
+theorem protocol_dial_ledger {ps : PS} (h : PReach ps) (j : Nat) (hj : j ∈ ps.order) :
+    (∀ k, k < ps.nextReq →
+      (ps.done.filter (fun d => d.cmd.k == k)).length + (ps.cmds.filter (fun c => c.k == k)).length = 1) ∧
+    (∀ d ∈ ps.done,
+      (∀ c, d.fate = .started c →
+        ∃ a ∈ ps.g.ledger, a.conn = c ∧ a.peer = cmdPeer d.cmd ∧ poutcome ps j a + inflight ps.g a = 1) ∧
+      (d.fate = .failed → pfailures ps j d.cmd.k = [failEv d]) ∧
+      (d.fate ≠ .failed → pfailures ps j d.cmd.k = [])) ∧
+    (∀ a ∈ ps.g.ledger, poutcome ps j a + inflight ps.g a = 1 ∧ poutcome ps j a ≤ 1) ∧
+    (ps.todo = [] → pall ps j = ps.recv j ++ (ps.chans j).filterMap slotEv) := by
+  have hi := pinv_reach h
+  refine ⟨?_, ?_, ?_, ?_⟩
+  · intro k hk
+    have := hi.acct k
+    rwa [if_pos hk] at this
+  · intro d hd
+    have hone : (ps.done.filter (fun d' => d'.cmd.k == d.cmd.k)).length ≤ 1 := by
+      have := hi.acct d.cmd.k
+      split at this <;> omega
+    have hmem : d ∈ ps.done.filter (fun d' => d'.cmd.k == d.cmd.k) := List.mem_filter.2 ⟨hd, by simp⟩
+    have hsingle := eq_singleton_of_length_le_one hone hmem
+    have hpf : pfailures ps j d.cmd.k =
+        ((ps.done.filter (fun d' => d'.cmd.k == d.cmd.k)).filter (fun d' => d'.fate == .failed)).map failEv := by
+      unfold pfailures pall
+      rw [hi.tied j hj, hi.failedEv d.cmd.k, List.filter_filter]
+      congr 1
+      apply List.filter_congr
+      intro x _
+      rw [Bool.and_comm]
+    rw [hsingle] at hpf
+    refine ⟨?_, ?_, ?_⟩
+    · intro c hc
+      obtain ⟨a, ha, h1, h2⟩ := hi.started d hd c hc
+      exact ⟨a, ha, h1, h2, by rw [poutcome_eq hi hj]; exact dial_ledger hi.reach a ha⟩
+    · intro hf; rw [hpf]; simp [hf]
+    · intro hf; rw [hpf]; simp [hf]
+  · intro a ha
+    rw [poutcome_eq hi hj]
+    exact ⟨dial_ledger hi.reach a ha, no_dup_outcome hi.reach a ha⟩
+  · intro hidle
+    unfold pall
+    rw [hidle, ← hi.split j]
+    simp [pend]
+
+/-- Non-vacuity: two protocols with channels of capacity 1, protocol 0 dials peer 1, the channel of
+protocol 1 is full when the open failure arrives: the manager is suspended on protocol 1, protocol 0
+already has its report; after protocol 1 drained its channel the send completes, `next()` returns
+the `OpenFailure`, and both protocols were sent exactly one `DialFailure{1, [address]}`. -/
+example :
+    let ps := runP (PS.init ⟨none, none⟩ 1 [0, 1])
+      [.base (.addKnown 1 [[.ip4 1, .tcp 1, .p2p 1]]), .pdial 0 1, .runCmd [], .pfill 1,
+       .base (.evOpenFailure 0 [([.ip4 1, .tcp 1, .p2p 1], .timeout)])]
+    let ps' := runP ps [.pdrain 1, .resume]
+    ps.done = [⟨.dialPeer 0 0 1, .started 0⟩] ∧ ps.g.ledger = [⟨1, 0, 0⟩] ∧
+    ps.todo = [(1, ⟨.df, 1, 0, [[.ip4 1, .tcp 1, .p2p 1]], .conn 0⟩)] ∧
+    ps.held = [.openFailure 0 [([.ip4 1, .tcp 1, .p2p 1], .timeout)]] ∧
+    ps.chans 0 = [.ev ⟨.df, 1, 0, [[.ip4 1, .tcp 1, .p2p 1]], .conn 0⟩] ∧ ps.chans 1 = [.fill] ∧
+    poutcome ps 0 ⟨1, 0, 0⟩ = 1 ∧ poutcome ps 1 ⟨1, 0, 0⟩ = 1 ∧ inflight ps.g ⟨1, 0, 0⟩ = 0 ∧
+    ps'.todo = [] ∧ ps'.chans 1 = [.ev ⟨.df, 1, 0, [[.ip4 1, .tcp 1, .p2p 1]], .conn 0⟩] ∧
+    (pstep (pstep ps (.pdrain 1)).1 .resume).2.out.events = [.openFailure 0 [([.ip4 1, .tcp 1, .p2p 1], .timeout)]] := by
+  decide
+
+/-- The suspended state of that history is `PReach`able. -/
+example : PReach (runP (PS.init ⟨none, none⟩ 1 [0, 1])
+      [.base (.addKnown 1 [[.ip4 1, .tcp 1, .p2p 1]]), .pdial 0 1, .runCmd [], .pfill 1,
+       .base (.evOpenFailure 0 [([.ip4 1, .tcp 1, .p2p 1], .timeout)])]) :=
+  PReach.step _ (PReach.step _ (PReach.step _ (PReach.step _ (PReach.step _ (PReach.init _ _ _ (by decide))
+    (by decide)) (by decide)) (by decide)) (by decide)) (by decide)
+
+/-- Non-vacuity of the `failed` case (the repair `e94cf63`): at the outgoing-connection limit the
+queued `DialPeer` fails and the protocol is sent `DialFailure{1, []}` — exactly once. -/
+example :
+    let ps := runP (PS.init ⟨none, some 0⟩ 2 [0])
+      [.base (.addKnown 1 [[.ip4 1, .tcp 1, .p2p 1]]), .pdial 0 1, .runCmd []]
+    ps.done = [⟨.dialPeer 0 0 1, .failed⟩] ∧ ps.cmds = [] ∧
+    pfailures ps 0 0 = [⟨.df, 1, 0, [], .cmd 0⟩] ∧ ps.chans 0 = [.ev ⟨.df, 1, 0, [], .cmd 0⟩] := by
+  decide
+
+/-- **A request that joins a dial in progress.** If `TransportManagerHandle::dial` answers `Ok`
+without queueing a command, or the manager finds a dial in progress when it gets to the queued
+command, then the peer's state says so and the transport owes the terminal event of an attempt
+for that peer (`∃ o ∈ owed, o.peer = p`, not an accept): that attempt is in the ledger of
+`protocol_dial_ledger`, so its one report goes to every protocol, the requesting one included. -/
+theorem protocol_dial_joins {ps : PS} (h : PReach ps) (p : Peer)
+    (hbusy : (stateOf ps.g.m p).canDial = .dialingInProgress) :
+    (∀ j, (handleDial ps j p).1 = ps ∨ p = localPeer) ∧
+    ∃ o ∈ ps.g.owed, o.peer = p ∧ o.phase ≠ .accepting := by
+  have hi := inv05_reach (pinv_reach h).reach
+  refine ⟨?_, ?_⟩
+  · intro j
+    unfold handleDial
+    by_cases hl : p = localPeer
+    · exact Or.inr hl
+    · left; simp [hl, hbusy]
+  · cases hs : stateOf ps.g.m p with
+    | connected r sec => rw [hs] at hbusy; simp [PeerState.canDial] at hbusy
+    | opening as c ts => exact ⟨_, hi.openTracked p as c ts hs, rfl, by simp⟩
+    | dialing d =>
+      exact ⟨_, hi.dialTracked p d.conn (by rw [hs]; simp [PeerState.holdsDial]), rfl, by simp⟩
+    | disconnected d =>
+      cases d with
+      | none => rw [hs] at hbusy; simp [PeerState.canDial] at hbusy
+      | some d => exact ⟨_, hi.dialTracked p d.conn (by rw [hs]; simp [PeerState.holdsDial]), rfl, by simp⟩
+
+example :
+    let ps := runP (PS.init ⟨none, none⟩ 1 [0])
+      [.base (.addKnown 1 [[.ip4 1, .tcp 1, .p2p 1]]), .pdial 0 1, .runCmd [], .pdial 0 1]
+    (stateOf ps.g.m 1).canDial = .dialingInProgress ∧ ps.cmds = [] ∧ ps.nextReq = 1 ∧
+    ps.g.owed = [⟨0, .opening, 1⟩] := by
+  decide
+
+theorem runSends_mono (cap : Nat) (x : Slot) (j : Nat) : ∀ (l : List (Nat × PEv)) (ch : Nat → List Slot)
+    (st : Nat → List PEv), x ∈ ch j → x ∈ (runSends cap ch st l).1 j
+  | [], _, _, h => by simpa [runSends] using h
+  | (i, e) :: t, ch, st, h => by
+    simp only [runSends]
+    split
+    · apply runSends_mono cap x j t
+      by_cases hij : j = i <;> simp [pushAt, hij, h]
+      subst hij; exact Or.inl h
+    · exact h
+
+/-- **A full channel delays the report but never loses it.** Let the manager be suspended inside
+`next()` on the blocking send of notification `e` to protocol `j` (its `try_send` found the channel
+full). Then (1) `e` is among what protocol `j` is being sent; (2) whatever happens next — any
+operation of the application or the environment (refused: the manager is blocked), any protocol
+dialing, filling or draining any channel, any internal step — either leaves the blocked send
+exactly where it is or puts `e` into the channel of protocol `j`; (3) as soon as protocol `j` has
+drained its channel the send completes: `e` is in the channel, and if nothing else blocks, `next()`
+returns the held events. (`protocol_dial_ledger` adds: in every reachable state every protocol was or
+is being sent every report exactly once.) -/
+theorem protocol_notified_despite_full_channel (ps : PS) (j : Nat) (e : PEv) (t : List (Nat × PEv))
+    (hs : ps.todo = (j, e) :: t) :
+    e ∈ pend ps.todo j ∧
+    (∀ i, (pstep ps i).1.todo = ps.todo ∨ Slot.ev e ∈ (pstep ps i).1.chans j) ∧
+    (0 < ps.cap →
+      Slot.ev e ∈ (pstep (pstep ps (.pdrain j)).1 .resume).1.chans j ∧
+      ((pstep (pstep ps (.pdrain j)).1 .resume).1.todo = [] →
+        (pstep (pstep ps (.pdrain j)).1 .resume).2.out.events = ps.held)) := by
+  have hres : ∀ ps' : PS, ps'.todo = (j, e) :: t → (ps'.chans j).length < ps'.cap →
+      Slot.ev e ∈ (resume ps').1.chans j ∧ ((resume ps').1.todo = [] → (resume ps').2.out.events = ps'.held) := by
+    intro ps' hs' hroom
+    have hm := runSends_mono ps'.cap (.ev e) j t (pushAt ps'.chans j (.ev e)) (pushAt ps'.sent j e)
+      (by simp [pushAt])
+    unfold resume
+    rw [hs']
+    simp only [hroom, if_true]
+    split <;> rename_i heq <;> rw [heq] at hm
+    · exact ⟨hm, fun _ => rfl⟩
+    · exact ⟨hm, fun h => by simp at h⟩
+  refine ⟨by rw [hs, pend_cons]; simp, ?_, ?_⟩
+  · intro i
+    have hne : (!ps.todo.isEmpty) = true := by rw [hs]; rfl
+    cases i with
+    | base i => left; simp [pstep, pbase, hne]
+    | pdial j' p => left; simp only [pstep, handleDial]; (repeat' split) <;> rfl
+    | pdialAddr j' a => left; simp only [pstep, handleDialAddress]; (repeat' split) <;> rfl
+    | pfill j' => left; rfl
+    | pdrain j' => left; rfl
+    | runCmd ch => left; simp [pstep, runCmd, hne]
+    | resume =>
+      by_cases hroom : (ps.chans j).length < ps.cap
+      · exact Or.inr (hres ps hs hroom).1
+      · left; simp [pstep, resume, hs, hroom]
+  · intro hcap
+    have hd : (pstep ps (.pdrain j)).1.todo = (j, e) :: t := hs
+    exact hres _ hd (by simp [pstep, pdrain]; exact hcap)
+
+/-- Non-vacuity: the suspended state of the history above satisfies the hypothesis. -/
+example :
+    (runP (PS.init ⟨none, none⟩ 1 [0, 1])
+      [.base (.addKnown 1 [[.ip4 1, .tcp 1, .p2p 1]]), .pdial 0 1, .runCmd [], .pfill 1,
+       .base (.evOpenFailure 0 [([.ip4 1, .tcp 1, .p2p 1], .timeout)])]).todo =
+      (1, ⟨.df, 1, 0, [[.ip4 1, .tcp 1, .p2p 1]], .conn 0⟩) :: [] := by
+  decide
+
+/-- **Genuine defect, kept as a witness.** The full statement "every accepted dial request of a
+protocol is concluded by a report" fails for `dial_address` requests whose queued command fails: the
+`DialAddress` arm of `next()` only logs the error (the `DialPeer` arm was repaired by `e94cf63`). Here
+the node is at its outgoing-connection limit: the request is accepted, processed, and nobody is told.
+(No protocol inside the crate calls `TransportService::dial_address`; recorded as known finding
+`queued-dial-address-failure-is-silent`.) -/
+theorem protocol_dial_address_error_silent_witness :
+    (runP (PS.init ⟨none, some 0⟩ 2 [0]) [.pdialAddr 0 [.ip4 1, .tcp 1, .p2p 1], .runCmd []]).done =
+        [⟨.dialAddress 0 0 [.ip4 1, .tcp 1, .p2p 1], .silent⟩] ∧
+    (runP (PS.init ⟨none, some 0⟩ 2 [0]) [.pdialAddr 0 [.ip4 1, .tcp 1, .p2p 1], .runCmd []]).bcast = [] ∧
+    (runP (PS.init ⟨none, some 0⟩ 2 [0]) [.pdialAddr 0 [.ip4 1, .tcp 1, .p2p 1], .runCmd []]).todo = [] ∧
+    (runP (PS.init ⟨none, some 0⟩ 2 [0]) [.pdialAddr 0 [.ip4 1, .tcp 1, .p2p 1], .runCmd []]).cmds = [] := by
+  decide
+
 #print axioms no_dup_outcome
 #print axioms dial_ledger
 #print axioms quiescent_dialable
 #print axioms addr_total
 #print axioms dial_address_parses_for_tcp
 #print axioms dial_address_peers_agree
+#print axioms protocol_dial_ledger
+#print axioms protocol_dial_joins
+#print axioms protocol_notified_despite_full_channel
+#print axioms protocol_dial_address_error_silent_witness
 
 end Litep2pVerif.Props.C05
